@@ -89,6 +89,10 @@ fn main() {
             drop(out);
             fuzz::probe_files(&args[2..])
         }
+        "parse-ast" => {
+            drop(out);
+            record_lang::parse_ast(&args[2..])
+        }
         "exec-lang" => {
             drop(out);
             record_lang::exec(&args[2..])
